@@ -23,6 +23,8 @@ import (
 	"time"
 
 	"github.com/caddyserver/caddy/v2"
+	"github.com/things-go/go-socks5"
+	"github.com/things-go/go-socks5/statute"
 	"go.uber.org/zap"
 
 	"github.com/mholt/caddy-l4/layer4"
@@ -37,10 +39,11 @@ type v16Conn struct {
 	idle    chan struct{}
 	once    sync.Once
 	release chan struct{}
+	remote  net.Addr
 }
 
-func v16NewConn(chunks [][]byte) *v16Conn {
-	return &v16Conn{chunks: chunks, idle: make(chan struct{}), release: make(chan struct{})}
+func v16NewConn(chunks [][]byte, remote net.Addr) *v16Conn {
+	return &v16Conn{remote: remote, chunks: chunks, idle: make(chan struct{}), release: make(chan struct{})}
 }
 
 func (c *v16Conn) Read(p []byte) (int, error) {
@@ -71,10 +74,50 @@ func (c *v16Conn) Write(b []byte) (int, error) {
 }
 func (c *v16Conn) Close() error                     { return nil }
 func (c *v16Conn) LocalAddr() net.Addr              { return &net.TCPAddr{IP: net.IPv4(127, 0, 0, 1), Port: 1080} }
-func (c *v16Conn) RemoteAddr() net.Addr             { return &net.TCPAddr{IP: net.IPv4(127, 0, 0, 1), Port: 40000} }
+func (c *v16Conn) RemoteAddr() net.Addr             { return c.remote }
 func (c *v16Conn) SetDeadline(time.Time) error      { return nil }
 func (c *v16Conn) SetReadDeadline(time.Time) error  { return nil }
 func (c *v16Conn) SetWriteDeadline(time.Time) error { return nil }
+
+// ---------------------------------------------------------------- the address the client connection reports
+
+type v16StrAddr string // a net.Addr that is not a *net.TCPAddr: only String() is known
+
+func (a v16StrAddr) Network() string { return "tcp" }
+func (a v16StrAddr) String() string  { return string(a) }
+
+type v16Client struct {
+	name string
+	addr net.Addr
+}
+
+func (c v16Client) ip() net.IP { // the client's IP as far as the connection's address type tells it
+	if t, ok := c.addr.(*net.TCPAddr); ok && t != nil {
+		return t.IP
+	}
+	return nil
+}
+
+func (c v16Client) coq() string {
+	if t, ok := c.addr.(*net.TCPAddr); ok && t != nil {
+		return fmt.Sprintf("(Tcp %s %s)", cHex(t.IP), cHex([]byte(t.Zone)))
+	}
+	return fmt.Sprintf("(Other %s)", cHex([]byte(c.addr.String())))
+}
+
+func v16Clients() []v16Client {
+	return []v16Client{
+		{"loopback", &net.TCPAddr{IP: net.IPv4(127, 0, 0, 1).To4(), Port: 40000}},
+		{"link-local with zone", &net.TCPAddr{IP: net.ParseIP("fe80::1"), Port: 40000, Zone: "eth0"}},
+		{"IPv4-mapped loopback", &net.TCPAddr{IP: net.IPv4(127, 0, 0, 1).To16(), Port: 40000}},
+		{"not a TCPAddr", v16StrAddr("127.0.0.1:40000")},
+		{"global IPv6", &net.TCPAddr{IP: net.ParseIP("2001:db8::1"), Port: 40000}},
+		{"link-local without zone", &net.TCPAddr{IP: net.ParseIP("fe80::2"), Port: 40000}},
+		{"TCPAddr without IP", &net.TCPAddr{Port: 40000}},
+		{"unspecified TCPAddr", &net.TCPAddr{IP: net.IPv6unspecified, Port: 40000}},
+		{"not a TCPAddr, zoned", v16StrAddr("[fe80::1%eth0]:40000")},
+	}
+}
 
 // ---------------------------------------------------------------- loopback target
 
@@ -538,9 +581,9 @@ func v16Provision(cfg v16Cfg) (*Socks5Handler, error, context.CancelFunc) {
 	return h, err, cancel
 }
 
-func v16Run(h *Socks5Handler, tgt *v16Target, chunks [][]byte, udpProbe bool, udpHost string, udpPort int) (o v16Obs) {
+func v16Run(h *Socks5Handler, tgt *v16Target, chunks [][]byte, client v16Client, udpProbe bool, udpHost string, udpPort int) (o v16Obs) {
 	before := tgt.count()
-	conn := v16NewConn(chunks)
+	conn := v16NewConn(chunks, client.addr)
 	cx := layer4.WrapConnection(conn, nil, zap.NewNop())
 	done := make(chan struct{})
 	go func() {
@@ -559,7 +602,7 @@ func v16Run(h *Socks5Handler, tgt *v16Target, chunks [][]byte, udpProbe bool, ud
 			_, rep, port := v16Mask(conn.out)
 			conn.mu.Unlock()
 			if rep == 0 && port != 0 {
-				o.probes = v16UDPProbes(port, udpHost, udpPort)
+				o.probes = v16UDPProbes(port, udpHost, udpPort, client.ip())
 				for _, p := range o.probes {
 					o.udpRelay = o.udpRelay || p.relayed
 					o.udpThird = o.udpThird || (p.third && p.relayed)
@@ -607,10 +650,22 @@ type v16Probe struct {
 	relayed bool
 }
 
-func v16UDPProbes(relayPort int, dstHost string, dstPort int) []v16Probe {
+func v16UDPProbes(relayPort int, dstHost string, dstPort int, clientIP net.IP) []v16Probe {
 	dst := net.ParseIP(dstHost)
 	if dst == nil {
 		return nil
+	}
+	// the one source a correct relay accepts: the announced address, or the client's own if none
+	// was announced (nil: the client's IP is unknown to the handler, every source is accepted)
+	expect := dst
+	if dst.IsUnspecified() {
+		expect = clientIP
+		if len(expect) == 0 || expect.IsUnspecified() {
+			expect = nil
+		}
+	}
+	isThird := func(src net.IP) bool {
+		return len(clientIP) != 0 && !clientIP.IsUnspecified() && !src.Equal(clientIP) && (dst.IsUnspecified() || !src.Equal(dst))
 	}
 	recv, err := net.ListenUDP("udp4", &net.UDPAddr{IP: net.IPv4(127, 0, 0, 1)})
 	if err != nil {
@@ -619,22 +674,28 @@ func v16UDPProbes(relayPort int, dstHost string, dstPort int) []v16Probe {
 	defer recv.Close()
 	rp := recv.LocalAddr().(*net.UDPAddr).Port
 	type plan struct {
-		from  net.IP
-		port  int
-		third bool
+		from net.IP
+		port int
 	}
 	var plans []plan
 	if other := v16OtherAddr(); other != nil {
-		plans = append(plans, plan{other, 0, true})
+		plans = append(plans, plan{other, 0})
 	}
-	plans = append(plans, plan{net.IPv4(127, 0, 0, 1), 0, false})
-	sentinel := plan{dst, dstPort, false}
-	if dst.IsUnspecified() {
-		sentinel.from = net.IPv4(127, 0, 0, 1)
-	} else if !dst.IsLoopback() {
-		return nil
+	plans = append(plans, plan{net.IPv4(127, 0, 0, 1), 0})
+	// a sentinel is possible when the accepted source is an address of this machine
+	haveSentinel := true
+	switch {
+	case expect == nil:
+		plans = append(plans, plan{net.IPv4(127, 0, 0, 1), dstPort})
+	case expect.IsLoopback():
+		from := expect
+		if ip4 := from.To4(); ip4 != nil {
+			from = ip4
+		}
+		plans = append(plans, plan{from, dstPort})
+	default:
+		haveSentinel = false
 	}
-	plans = append(plans, sentinel)
 	var probes []v16Probe
 	for i, pl := range plans {
 		network := "udp4"
@@ -653,16 +714,22 @@ func v16UDPProbes(relayPort int, dstHost string, dstPort int) []v16Probe {
 		if ip4 := ip.To4(); ip4 != nil {
 			ip = ip4
 		}
-		probes = append(probes, v16Probe{src: ip, port: la.Port, third: pl.third})
+		probes = append(probes, v16Probe{src: ip, port: la.Port, third: isThird(ip)})
 		c.Close()
 	}
-	recv.SetReadDeadline(time.Now().Add(2 * time.Second))
+	wait := 2 * time.Second
+	if !haveSentinel {
+		// the accepted source is not an address of this machine: a correct relay forwards nothing,
+		// which only the passing of time can show
+		wait = 150 * time.Millisecond
+	}
+	recv.SetReadDeadline(time.Now().Add(wait))
 	buf := make([]byte, 64)
 	sentinelSeen := false
 	for {
 		n, _, err := recv.ReadFromUDP(buf)
 		if err != nil {
-			if sentinelSeen {
+			if sentinelSeen || !haveSentinel {
 				return probes
 			}
 			return nil // the sentinel did not arrive: nothing can be concluded
@@ -670,13 +737,23 @@ func v16UDPProbes(relayPort int, dstHost string, dstPort int) []v16Probe {
 		var i int
 		if _, err := fmt.Sscanf(string(buf[:n]), "verif-udp-%d", &i); err == nil && i >= 0 && i < len(probes) {
 			probes[i].relayed = true
-			if i == len(probes)-1 {
+			if haveSentinel && i == len(probes)-1 {
 				// a short grace period in case the kernel delivered the datagrams out of order
 				sentinelSeen = true
 				recv.SetReadDeadline(time.Now().Add(40 * time.Millisecond))
 			}
 		}
 	}
+}
+
+func v16ThirdSources(ps []v16Probe) []string {
+	var r []string
+	for _, p := range ps {
+		if p.third && p.relayed {
+			r = append(r, p.src.String())
+		}
+	}
+	return r
 }
 
 // an IPv4 address of this machine that is not loopback (nil if there is none)
@@ -695,6 +772,7 @@ func v16OtherAddr() net.IP {
 // ---------------------------------------------------------------- engine
 
 type v16Engine struct {
+	client  v16Client
 	out     *vOut
 	r       *vRng
 	tgt     *v16Target
@@ -802,8 +880,8 @@ func (e *v16Engine) session(cfg v16Cfg, h *Socks5Handler, sc v16Script) {
 		annHost = annIP.String()
 	}
 	chunks := v16Chunks(e.r, sc.b)
-	o := v16Run(h, e.tgt, chunks, udpProbe, annHost, rq.port)
-	input := map[string]any{"config": cfg.name, "commands": cfg.cmds, "credentials": fmt.Sprint(cfg.creds), "script": sc.name, "bytes": hex.EncodeToString(sc.b)}
+	o := v16Run(h, e.tgt, chunks, e.client, udpProbe, annHost, rq.port)
+	input := map[string]any{"client_address": e.client.name + " " + e.client.addr.String(), "config": cfg.name, "commands": cfg.cmds, "credentials": fmt.Sprint(cfg.creds), "script": sc.name, "bytes": hex.EncodeToString(sc.b)}
 	if o.panicMsg != "" {
 		e.out.Fail("C16:handler:panic", o.panicMsg, input)
 		return
@@ -843,7 +921,7 @@ func (e *v16Engine) session(cfg v16Cfg, h *Socks5Handler, sc v16Script) {
 	for i, p := range o.probes {
 		prs[i] = fmt.Sprintf("(%s,%d,%s)", cHex(p.src), p.port, cBool(p.relayed))
 	}
-	term := fmt.Sprintf("CSess %s [%s] [%s] %s %d %d %s true %s %s %s %s [%s]", v16HexList(cfg.cmds), strings.Join(creds, "; "), strings.Join(envt, "; "),
+	term := fmt.Sprintf("CSess %s %s [%s] [%s] %s %d %d %s true %s %s %s %s [%s]", e.client.coq(), v16HexList(cfg.cmds), strings.Join(creds, "; "), strings.Join(envt, "; "),
 		"\""+resolved+"\"", dialr, e.listenr, cHex(sc.b), cHex(o.out), cBool(o.dialled), cHex(o.tbytes), cBool(o.listened), strings.Join(prs, "; "))
 	cls := "neg-only"
 	switch {
@@ -911,7 +989,7 @@ func (e *v16Engine) oracle(cfg v16Cfg, sc v16Script, sp v16Spec, o v16Obs, rep i
 		}
 	}
 	if credsConfigured && o.udpThird {
-		e.out.Fail("C16:auth:udp-relay-accepts-other-source", fmt.Sprintf("UDP ASSOCIATE by the authenticated client at %v with an unspecified announced address: a datagram sent from %v (no SOCKS session, no authentication) to the relay port was forwarded to its destination (RFC 1928 section 7: MUST drop datagrams from any other source IP)", "127.0.0.1", v16OtherAddr()), input)
+		e.out.Fail("C16:auth:udp-relay-accepts-other-source", fmt.Sprintf("UDP ASSOCIATE by the authenticated client at %v: a datagram sent from %v (no SOCKS session, no authentication; neither the client's address nor one it announced) to the relay port was forwarded to its destination (RFC 1928 section 7: MUST drop datagrams from any other source IP)", e.client.addr, v16ThirdSources(o.probes)), input)
 	}
 	if o.dialled && !(sp.reqComplete && sp.cmd == 1 && cfg.connect) {
 		e.out.Fail("C16:command:disabled-command-executed", fmt.Sprintf("the target saw a connection; request command=%d complete=%v; CONNECT enabled=%v", sp.cmd, sp.reqComplete, cfg.connect), input)
@@ -969,7 +1047,7 @@ func TestVerifC16(t *testing.T) {
 			break
 		}
 	}
-	e := &v16Engine{out: out, r: r, tgt: tgt, gen: &v16Gen{r: r, port: tgt.port, closed: closed}, dialMem: map[string]int{}, resMem: map[string]string{}}
+	e := &v16Engine{client: v16Clients()[0], out: out, r: r, tgt: tgt, gen: &v16Gen{r: r, port: tgt.port, closed: closed}, dialMem: map[string]int{}, resMem: map[string]string{}}
 	// what net.ListenUDP("udp", nil) gives here
 	if l, err := net.ListenUDP("udp", nil); err != nil {
 		e.listenr = 2
@@ -1017,7 +1095,7 @@ func TestVerifC16(t *testing.T) {
 				envt = append(envt, fmt.Sprintf("(%s,%s)", cHex([]byte("env."+k)), cHex([]byte(v))))
 			}
 			sortStrings(envt)
-			out.Case(fmt.Sprintf("CSess %s [%s] [%s] \"\" 2 2 \"\" false \"\" false \"\" false []", v16HexList(cfg.cmds), strings.Join(creds, "; "), strings.Join(envt, "; ")),
+			out.Case(fmt.Sprintf("CSess %s %s [%s] [%s] \"\" 2 2 \"\" false \"\" false \"\" false []", e.client.coq(), v16HexList(cfg.cmds), strings.Join(creds, "; "), strings.Join(envt, "; ")),
 				"provision-error", false, map[string]any{"config": cfg.name, "err": err.Error()})
 		}
 		handlers[hk{ci, ki}] = h
@@ -1225,6 +1303,79 @@ func TestVerifC16(t *testing.T) {
 		run(ci, ki, sc)
 		count++
 	}
+	// 4. the address the client connection reports: UDP ASSOCIATE announcing no address (three ways)
+	//    and an explicit one, from clients with a zoned link-local address, an IPv4-mapped address,
+	//    a non-TCP net.Addr, ... A real datagram cannot come from most of these addresses here, so
+	//    datagrams from this machine's addresses stand for third parties.
+	for _, cl := range v16Clients()[1:] {
+		e.client = cl
+		for _, ck := range [][2]int{{4, 1}, {3, 6}, {0, 0}} {
+			cfg, h := get(ck[0], ck[1])
+			if h == nil {
+				continue
+			}
+			hasCreds := len(cfg.creds) > 0
+			m := 0
+			if hasCreds {
+				m = 1
+			}
+			for _, form := range []int{8, 10, 13, 0} {
+				run(ck[0], ck[1], build(cfg, m, 0, hasCreds, 5, 3, 0, form, tgt.port, ""))
+				count++
+			}
+			run(ck[0], ck[1], build(cfg, m, 0, hasCreds, 5, 1, 0, 0, tgt.port, "hello"))
+			count++
+		}
+	}
+	e.client = v16Clients()[0]
+	// 5. the pinning decision itself, white-box: the handler's rewriter called with every client
+	//    address x command x announced address
+	v16PinCases(out)
 	out.Stat("sessions", count)
 	out.Stat("udp_relays_confirmed", e.relays)
+}
+
+func v16PinCases(out *vOut) {
+	announced := []net.IP{
+		net.IPv4zero.To4(), net.IPv4zero.To16(), net.IPv6unspecified, nil, {},
+		net.IPv4(127, 0, 0, 1).To4(), net.IPv4(127, 0, 0, 1).To16(), net.IPv6loopback, net.IPv4(10, 1, 2, 3).To4(), net.ParseIP("fe80::9"),
+	}
+	for _, cl := range v16Clients() {
+		for _, cmd := range []byte{1, 2, 3, 4} {
+			for _, ann := range announced {
+				atyp := statute.ATYPIPv4
+				if len(ann) == 16 && ann.To4() == nil {
+					atyp = statute.ATYPIPv6
+				}
+				req := &socks5.Request{
+					Request:     statute.Request{Version: 5, Command: cmd},
+					RemoteAddr:  cl.addr,
+					RawDestAddr: &statute.AddrSpec{IP: ann, Port: 0, AddrType: atyp},
+				}
+				var got net.IP
+				func() {
+					defer func() {
+						if r := recover(); r != nil {
+							out.Fail("C16:handler:panic", fmt.Sprint(r), map[string]any{"rewriter": true, "client": cl.name, "announced": ann.String()})
+						}
+					}()
+					_, spec := associateSourceRewriter{}.Rewrite(context.Background(), req)
+					if spec != nil {
+						got = spec.IP
+					}
+				}()
+				input := map[string]any{"client_address": cl.name + " " + cl.addr.String(), "command": cmd, "announced": ann.String()}
+				unannounced := len(ann) == 0 || ann.IsUnspecified()
+				cip := cl.ip()
+				known := len(cip) != 0 && !cip.IsUnspecified()
+				if cmd == 3 && unannounced && known && !got.Equal(cip) {
+					out.Fail("C16:auth:udp-relay-not-pinned-to-client", fmt.Sprintf("UDP ASSOCIATE announcing %v from the client at %v: the relay's source check is given %v instead of the client's IP (every source is accepted when it is unspecified)", ann, cl.addr, got), input)
+				}
+				if (cmd != 3 || !unannounced) && !got.Equal(ann) && !(len(got) == 0 && len(ann) == 0) {
+					out.Fail("C16:command:destination-rewritten", fmt.Sprintf("command %d for %v: the library is given %v", cmd, ann, got), input)
+				}
+				out.Case(fmt.Sprintf("CPin %s %d %s %s", cl.coq(), cmd, cHex(ann), cHex(got)), "pin:"+cl.name, cmd == 3 && unannounced, input)
+			}
+		}
+	}
 }
